@@ -456,6 +456,9 @@ func (r *replayer) run(w *world) error {
 		return fmt.Errorf("harness: transcript layout of %s (k=%d) is %d bytes, the library produced %d - refinement mapping out of date", w.kind, w.k, w.totalLen(), len(w.prf))
 	}
 	adv, ver := r.bh.steps[2], r.bh.steps[3]
+	if ver.Must != "acc" && ver.Must != "rej" && ver.Must != "free" {
+		return fmt.Errorf("behaviour without a verdict (must=%q): generator and replayer out of step", ver.Must)
+	}
 	if w.kind == "simple" {
 		return r.runSimple(w, adv, ver)
 	}
